@@ -7,6 +7,7 @@
 import SparseV.Spec.Getitem
 import SparseV.Lemmas.Rewrite
 import SparseV.Lemmas.Canonical
+import SparseV.Lemmas.Gen.Slicing
 namespace SparseV
 open SparseV.Spec
 
@@ -21,27 +22,17 @@ theorem lt_ceilDiv (m n : Int) (hm : 0 < m) (t : Nat) :
 /-- the generated `clip_slice` returns a normalised triple (any start/stop, any non-zero step) -/
 theorem clipSlice_normalised (a b s dim : Int) (hs : s ≠ 0) :
     NormSlice (Gen.clipSlice a b s dim).1 (Gen.clipSlice a b s dim).2.1 (Gen.clipSlice a b s dim).2.2 dim := by
-  unfold NormSlice
-  simp only [Gen.clipSlice]
-  by_cases h : s > 0
-  · simp only [h, if_true]
-    split <;> simp only <;> omega
-  · simp only [h, if_false]
-    split <;> simp only <;> omega
+  rw [Gen.clipSlice_eq]
+  unfold NormSlice Ref.clipSlice
+  split <;> simp only <;> omega
 
 /-- the step that reaches `clip_slice` is the user's step (`1` for `None`) -/
 theorem normalizeSlice_eq_clip (start stop step : Option Int) (dim : Int) :
     ∃ a b, normalizeSlice start stop step dim = Gen.clipSlice a b (step.getD 1) dim := by
-  cases step with
-  | none =>
-    cases start <;> cases stop <;>
-      simp only [normalizeSlice, Gen.replaceNone, Gen.posifySlice, Option.getD] <;>
-      (repeat' split) <;> exact ⟨_, _, rfl⟩
-  | some st =>
-    by_cases h : st > 0 <;>
-    cases start <;> cases stop <;>
-      simp only [normalizeSlice, Gen.replaceNone, Gen.posifySlice, Option.getD, h, if_true, if_false] <;>
-      (repeat' split) <;> exact ⟨_, _, rfl⟩
+  have hstep : (Gen.posifySlice dim (Gen.replaceNone start stop step dim).1 (Gen.replaceNone start stop step dim).2.1
+      (Gen.replaceNone start stop step dim).2.2).2.2 = step.getD 1 := by
+    simp only [Gen.posifySlice_eq, Gen.replaceNone_eq, Ref.posifySlice, Ref.replaceNone_step]
+  exact ⟨_, _, by simp only [normalizeSlice]; rw [hstep]⟩
 
 /-- **normalizeSlice_normalised.** What `normalize_index` makes of a slice entry (`replace_none`,
 `posify_index`, `clip_slice`, the generated definitions) is a normalised triple. -/
@@ -437,22 +428,15 @@ theorem outOf_mono (k : Nat) (adv : Bool) (idx : List NIx) : ∀ (shape : List N
 
 theorem normalizeEntry_int_ok (i : Int) (d : Nat) (h : NIx) (he : normalizeEntry (.int i) d = .ok h) :
     ∃ n, h = .int n ∧ 0 ≤ n ∧ n < (d : Int) := by
-  simp only [normalizeEntry, normalizeInt, Gen.checkIndexInt, Gen.posifyInt] at he
+  simp only [normalizeEntry, normalizeInt_eq] at he
   split at he
   · rename_i v hv
     split at hv
+    · rename_i hr
+      simp only [Except.ok.injEq] at hv he
+      subst he hv
+      exact ⟨_, rfl, by split <;> omega⟩
     · cases hv
-    · rename_i hok
-      split at hok
-      · cases hok
-      · split at hok
-        · cases hok
-        · simp only [Except.ok.injEq] at hv he
-          subst he
-          refine ⟨v, rfl, ?_⟩
-          subst hv
-          simp only [not_false_eq_true, and_true]
-          split <;> omega
   · cases he
 
 theorem go_valid : ∀ (es : List IxE) (dims : List Nat) (r : List NIx), (∀ e ∈ es, BasicIxE e) →
